@@ -171,6 +171,82 @@ theorem masked_spec (mask : List (Int × R)) (hnd : (mask.map (·.1)).Nodup) (x 
             exact ⟨e, he, rfl⟩)]
         exact hspec.2.2
 
+/-! ## `tools.synchronized(mask)` for ARBITRARY masks (tools.py l.613-672)
+`for i,j in mask.items(): x[i] = x[j]` (or `c * x[j0]` for a `(j0, c)` value), `IndexError` skipped.
+The docstring asks for keys and tracked indices to be different; `SrcNotKey` is that contract on SLOTS (negative
+indices wrapped).  Without it the result depends on the dict's listing order (a later entry reads what an earlier one
+wrote) - nothing is claimed then except the frame.  On an ndarray the `(j0, c)` form is skipped
+(`synchronized_array_scaled_ignored_witness`, Core): `syncVal true` is `none` for it. -/
+
+section sync
+variable {R : Type} [Mul R]
+
+theorem synchronized_length (isArray : Bool) (mask : List (Int × Track R)) (x : List R) :
+    (synchronized isArray mask x).length = x.length := by
+  rw [synchronized_eq_foldl]; exact foldl_syncStep_length isArray mask x
+
+/-- **frame**, every mask: an entry whose slot no key addresses is untouched -/
+theorem synchronized_frame (isArray : Bool) (mask : List (Int × Track R)) (x : List R) (k : Nat)
+    (h : ∀ e ∈ mask, wrapIdx x.length e.1 ≠ some k) : (synchronized isArray mask x)[k]? = x[k]? := by
+  rw [synchronized_eq_foldl]; exact foldl_syncStep_frame isArray mask x k h
+
+/-- **tied**: when no tracked index addresses a slot that a key addresses, every addressed entry holds the value the
+LAST mask entry for its slot reads from the ORIGINAL input (`x[j]`, or `c * x[j0]`; an entry whose tracked index is
+out of range - or of the `(j0, c)` form on an ndarray - is skipped) -/
+theorem synchronized_tied (isArray : Bool) (mask : List (Int × Track R)) (x : List R)
+    (hdis : SrcNotKey x.length mask) (k : Nat) :
+    (synchronized isArray mask x)[k]? = (x[k]?).map (fun a => (lastSync isArray x mask k).getD a) := by
+  rw [synchronized_eq_foldl]
+  exact foldl_syncStep_spec isArray x mask x rfl (fun _ _ => rfl) hdis k
+
+/-- the usual case spelled out: ONE entry `i -> j` for the slot, list input: the entry becomes `x[j]` -/
+theorem synchronized_tied_single (mask : List (Int × Track R)) (x : List R) (hdis : SrcNotKey x.length mask)
+    (k : Nat) (v : R) (hv : lastSync false x mask k = some v) (hk : k < x.length) :
+    (synchronized false mask x)[k]? = some v := by
+  rw [synchronized_tied false mask x hdis k, List.getElem?_eq_getElem hk, hv]; rfl
+
+/-- **idempotent** under the same contract -/
+theorem synchronized_idem (isArray : Bool) (mask : List (Int × Track R)) (x : List R)
+    (hdis : SrcNotKey x.length mask) :
+    synchronized isArray mask (synchronized isArray mask x) = synchronized isArray mask x := by
+  have hl := synchronized_length isArray mask x
+  have hdis' : SrcNotKey (synchronized isArray mask x).length mask := by rw [hl]; exact hdis
+  -- the tracked entries are not written, so the second pass reads the same values
+  have hsrc : ∀ e' ∈ mask, getPy (synchronized isArray mask x) e'.2.src = getPy x e'.2.src := by
+    intro e' he'
+    apply getPy_congr _ _ _ hl
+    intro w hw
+    apply synchronized_frame
+    intro e he hkey
+    exact hdis e he e' he' w hkey hw
+  have hlast : ∀ k, lastSync isArray (synchronized isArray mask x) mask k = lastSync isArray x mask k := by
+    intro k
+    have key : ∀ (m : List (Int × Track R)), (∀ e' ∈ m, e' ∈ mask) →
+        lastSync isArray (synchronized isArray mask x) m k = lastSync isArray x m k := by
+      intro m
+      induction m with
+      | nil => intro _; rfl
+      | cons e rest ih =>
+        intro hm
+        simp only [lastSync]
+        rw [ih (fun e' he' => hm e' (List.mem_cons_of_mem _ he')), hl,
+          syncVal_congr isArray x _ e.2 (hsrc e (hm e List.mem_cons_self))]
+    exact key mask (fun _ h => h)
+  apply List.ext_getElem?
+  intro k
+  rw [synchronized_tied isArray mask _ hdis' k, hlast k, synchronized_tied isArray mask x hdis k]
+  cases x[k]? with
+  | none => rfl
+  | some a => cases lastSync isArray x mask k <;> rfl
+
+end sync
+
+example : synchronized false [(0, Track.idx 1), (3, Track.idx (-1))] [(0 : Int), 1, 2, 3, 4] = [1, 1, 2, 4, 4] := by decide
+example : synchronized false [(0, Track.scaled 1 (2 : Int)), (3, Track.scaled 1 (-1))] [0, 9, 2, 3, 6] = [18, 9, 2, -9, 6] := by decide
+/-- the contract matters: with `{0:1, 1:2}` entry 0 gets the OLD `x[1]`, with the listing order reversed the new one -/
+example : synchronized false [(0, Track.idx 1), (1, Track.idx 2)] [(0 : Int), 1, 2] = [1, 2, 2]
+    ∧ synchronized false [(1, Track.idx 2), (0, Track.idx 1)] [(0 : Int), 1, 2] = [2, 2, 2] := by decide
+
 /-! non-vacuity -/
 
 example : imposeAt [1, 3, 4, 5, 7] (.inr [(0 : Int), 2, 4, 6]) [1, 1, 1, 1, 1, 1, 1] = .ok [1, 0, 1, 2, 4, 6, 1] := by decide
